@@ -991,7 +991,7 @@ def gen_val(rng, depth, clean, fail, P):
         vs = [gen_style(rng, clean) if k.strip("_ ").lower() == "style" and rng.random() < 0.5
               else gen_val(rng, depth - 1, clean, False, P) for k in ks]
         # (a jsx() value is written as it stands: CSS text is not an expression the independent reader can read)
-        vs = [["str", v[1]] if v[0] == "jsx" and v[1] not in CLEAN_JSX + DIRTY_JSX else v for v in vs]
+        vs = [["str", v[1]] if v[0] == "jsx" and v[1] not in CLEAN_JSX else v for v in vs]
         return ["dict", [[k, v] for k, v in zip(ks, vs)]] + ([rng.choice(["sub", "ordered"])] if sub else [])
     return ["node", gen_node(rng, depth - 1, clean, fail, P, prop=True)]
 
@@ -1008,6 +1008,9 @@ def gen_comp(rng, depth, clean, fail, P):
         raw[0] = 'p"q'                                  # known finding C20-key-not-escaped (prop name)
     kwargs = [[k, gen_style(rng, clean) if norm_name(k) == "style" else gen_val(rng, depth, clean, fail, P)]
               for k in raw]
+    for kv in kwargs:
+        if norm_name(kv[0]) == "style" and kv[1][0] in ("str", "dict") and rng.random() < P.get("sub", 0.0):
+            kv[1] = kv[1] + ["sub"]            # a style given as an instance of a str / dict subclass
     allowed = None
     r = rng.random()
     if r < 0.05:
@@ -1186,6 +1189,12 @@ def enum_routes():
                     yield {"clean": True, "tree": c}
                     if where == "first" and dk:
                         yield {"clean": True, "tree": ["C", "Outer", None, [["slot", ["node", c]]], [["G", "div", [], [c]]], 0]}
+        # two dicts: every split of the names over them, each position pair
+        for d1, d2 in ((["a"], ["c"]), (["c"], ["a"]), (["a"], ["b_"]), (["a", "b_"], ["d"]), ([], ["c"]), (["a"], [])):
+            for w1, w2 in (("first", "last"), ("mid", "mid"), ("last", "nested"), ("nested", "first")):
+                kwargs = [[k, ["str", "v" + k]] for k in d1 + ["e"][: len(d2)] + d2]
+                yield {"clean": True, "tree": ["C", "Card", (al + ["e"]) if al else al, kwargs, [["T", "x"], ["G", "b", [], []]], len(d1),
+                                               ["pos", [[w1, d1, "dict"], [w2, d2, "sub" if w1 == "mid" else "dict"]]]]}
     vals = [["str", "s"], ["none"], ["node", ["M", 4]], ["dict", [["style", ["str", "a:b"]]]]]
     for r in LATE_ROUTES:
         for names in (["x_y"], ["x_y", "x-y"], ["class_", "style", "data_x"], ["x__", "x_", "x"], ["a", "b", "c", "d", "e"]):
@@ -1487,7 +1496,9 @@ def run_batch(ctx: Ctx, cases: list, label: str, rng) -> None:
         if not shape_ok:
             ctx.violation(W_SHAPE, case, {"impl_output": [tag.name, attrs, child0[0], rest]})
             continue
-        if not flags.get("double"):
+        if not flags.get("double") and not (pd and posdict_collision(tree)):
+            # (two names of one component that collide after normalisation, handed over in the two different
+            # ways: which value the prop ends up with is not fixed by the statement)
             stat("metadata oracle: trees")
             if metas:
                 stat("metadata oracle: trees with metadata")
@@ -1946,7 +1957,20 @@ RULE = ("component trees (depth <= 4) generated from one seeded PRNG: JSX compon
         "repeat within a run; half the components are built through jsx_tag_create.  Histories: 2-5 "
         "jsx_tag_create(name, allowedProps) calls over three names with varying allow-lists (None, empty, one, several, "
         "names needing normalisation), each followed by 1-3 constructions; every construction is decided from the "
-        "allow-list of its own call and compared with a direct JSXTag(...) and with the model.")
+        "allow-list of its own call and compared with a direct JSXTag(...) and with the model.  Ways props reach a "
+        "component: keyword arguments; stored after construction (attrs[k] = v, attrs.update with one / two mappings, "
+        "keywords, both; half and half) where no non-empty allow-list is declared, same expectations as for keywords; "
+        "handed over in one or two dicts (dict, dict subclass, another component's attribute map) given as unnamed "
+        "arguments first / in the middle / last / inside a list, next to or instead of keywords, two thirds with a "
+        "non-empty allow-list (own names, one missing, normalised spelling, unrelated): such a tree must not come into "
+        "existence when a name in a dict is outside the list both as given and normalised; being refused with "
+        "TypeError is accepted (dicts as arguments are not promised), and when built the oracles apply with props and "
+        "metadata compared without order; these trees are not run through the model.  Keys of dict values are drawn "
+        "from a pool holding every name that is special one level up (style, names that would be normalised, React's "
+        "own special names) with CSS-looking / None / number / list values under them, at every nesting depth; some "
+        "scalars, lists, tuples, dicts, style values and text children are instances of plain subclasses.  A "
+        "bounded-exhaustive family over allow-list x names in the dict x names by keyword x position x class, over "
+        "the storing routes x colliding names, and over special keys x values x nesting runs in both tiers.")
 
 
 def run(ctx: Ctx) -> None:
@@ -1960,6 +1984,9 @@ def run(ctx: Ctx) -> None:
         "non-finite float props and double quotes in dict keys / prop names are generated; their two deviations are "
         "the open known findings C20-nonfinite-float and C20-key-not-escaped, each reported under its own text",
         "str(x) of numbers, dependencies and foreign objects is supplied by Python, not modelled",
+        "the statement does not say that a dict given as an unnamed argument is accepted as props: a TypeError at "
+        "construction is taken as a refusal; trees using that route are judged by the oracles only (the model's "
+        "components take keyword props); props stored after construction are outside the allow-list promise",
     ]
     ctx.proof()
     probe_deviations(ctx)
@@ -1968,6 +1995,8 @@ def run(ctx: Ctx) -> None:
     if corpus:
         stage(ctx, "corpus", lambda: run_batch(ctx, corpus, "corpus", rng))
     stage(ctx, "faults", lambda: run_faults(ctx, rng))       # early: what a fault leaves behind shows up below too
+    routes = list(enum_routes())       # before the random trees: a failure is then reported on a small input
+    stage(ctx, "prop routes", lambda: run_batch(ctx, routes, "small scope, prop routes and dict keys", rng))
     n = ctx.budget(2500, 40000)
     step = 2500
     for k in range(0, n, step):
@@ -1977,8 +2006,6 @@ def run(ctx: Ctx) -> None:
     if ctx.quick:
         small = rng.sample(small, 600)
     stage(ctx, "small scope", lambda: run_batch(ctx, small, "small scope", rng))
-    routes = list(enum_routes())
-    stage(ctx, "prop routes", lambda: run_batch(ctx, routes, "small scope, prop routes and dict keys", rng))
     stage(ctx, "strings", lambda: run_strings(ctx, rng))
     stage(ctx, "css", lambda: run_css(ctx, rng))
     stage(ctx, "render", lambda: run_render(ctx, rng))
